@@ -158,7 +158,7 @@ def make_state(seed):
             src += "\n    def __init__(self, %sextra: int = 1):" % ("/, " if ch.chance("posonly", 0.4) else "") + "\n        \"\"\"\n        Construct.\n\n        :param extra: the extra\n        \"\"\"\n        self.extra = extra\n"
     else:
         src = render.render_argparse(desc, docstring=not (desc.get("returns") is None and ch.chance("nodoc", 0.3)))
-    if kind in ("function", "method_in_class") and ch.chance("emptydoc", 0.15):
+    if kind in ("function", "method_in_class") and ch.chance("emptydoc", 0.2):
         # a docstring that is present but empty, every parameter defaulted (what emit.function writes for a bare description)
         first = "self, " if kind == "method_in_class" else ""
         args = ", ".join("%s=%s" % (p["name"], render.lit(p["default"]) if p["default"] is not None else "None") for p in desc["params"])
@@ -395,7 +395,7 @@ def run_check(prop, tier):
     t0 = time.monotonic()
     base = core.base_seed()
     known = core.load_known()
-    n = 48 if tier == "quick" else 3000
+    n = 72 if tier == "quick" else 3000
     if "DTSIM_RUNS" in os.environ:
         n = int(os.environ["DTSIM_RUNS"])
     budget = float(os.environ.get("DTSIM_BUDGET_S", "420" if tier == "quick" else "900"))
